@@ -698,7 +698,7 @@ func trackRun(e *Env) {
 				}
 				ln = strings.TrimRight(ln, "\r\n")
 				clientLines++
-				if strings.HasPrefix(ln, "MODE ") || strings.HasPrefix(ln, "WHO ") {
+				if (strings.HasPrefix(ln, "MODE ") || strings.HasPrefix(ln, "WHO ")) && len(strings.Fields(ln)) >= 2 {
 					queries = append(queries, ln)
 				}
 			}
